@@ -1576,6 +1576,20 @@ class C09(Prop):
             res.count("oracle:" + cl.split(":")[0])
             if any(t[0] != "translate" and t[-1] is None for t in case["tlist"]):
                 res.boundary += 1
+        # rotate / scale about the DEFAULT origin (origin=None: the entity's own centre, which some entities compute from the very
+        # data that is being transformed) on every curve class, bare and inside edge data, by method call and by list
+        k = 0
+        for cl in classes:
+            if not (cl.startswith("curve:") or cl.startswith("edgedata:curve:") or cl in ("edgedata:spline", "edgedata:polyline")):
+                continue
+            for kind in ("rotate", "scale"):
+                k += 1
+                case = dict(kind="transform", klass=cl, spec=gen_entity_spec(rng, cl), mode=("method" if k % 2 else "list"),
+                            tlist=[gen_tf(rng, kind, zero_origin_p=0.0, none_origin_p=1.0)])
+                jobs.append(("transform", case))
+                res.evaluations += 1
+                res.boundary += 1
+                res.count("oracle-default-origin:" + cl)
         for cl in classes:
             jobs.append(("copy", dict(kind="copy", klass=cl, spec=gen_entity_spec(rng, cl))))
             res.evaluations += 1
